@@ -838,6 +838,9 @@ func (tc *typechecker) binaryOp(expr1 ast.Expression, op ast.OperatorType, expr2
 
 	var isStringContains bool
 	if op == ast.OperatorContains || op == ast.OperatorNotContains {
+		if t1.Nil() {
+			return nil, fmt.Errorf("operator %s not defined on nil", op)
+		}
 		switch t1.Type.Kind() {
 		case reflect.String:
 			isStringContains = true
@@ -845,6 +848,8 @@ func (tc *typechecker) binaryOp(expr1 ast.Expression, op ast.OperatorType, expr2
 			t1 = &typeInfo{Type: t1.Type.Elem()}
 		case reflect.Map:
 			t1 = &typeInfo{Type: t1.Type.Key()}
+		default:
+			return nil, fmt.Errorf("operator %s not defined on %s", op, t1.Type.Kind())
 		}
 	}
 
